@@ -257,7 +257,7 @@ def run_channels(ck, thorough):
             ck.violation("Channel.tla violates %s for program %s" % (r.violated, prog_text(prog)), ck.save_replay("impl_%s" % tag, {"tlc.out": r.out}))
             continue
         g = vf.Graph.load(dot); os.remove(dot)
-        paths, covered, total = g.transition_cover(ck.rng, limit=None if thorough else 90)
+        paths, covered, total = g.transition_cover(ck.rng, limit=400 if thorough else 90)
         paths += g.random_walks(ck.rng, 30 if thorough else 10)
         ck.note("%s sse n=%d (%s): %d states, %d edges, %d behaviours (%d/%d edges)" % (tag, n, prog_text(prog), r.distinct, g.n_edges(), len(paths), covered, total))
         for p in paths:
